@@ -6,6 +6,8 @@
 //!   sim show <property> <directed|seeded|oom> <idx> [k]     print a trace as a replay file
 //!   sim worker …                                      (internal)
 
+#![allow(dead_code)]
+
 mod ctor;
 mod eval;
 mod gen;
